@@ -221,3 +221,49 @@ def fm_state_steps(I_or_none, positions=(), farms=(), weights=(), last_claimed=(
         if cs:
             steps.append({'op': 'mint', 'to': to, 'funds': cs})
     return steps
+
+
+def observe_position(I, ident):
+    p = get_position(I, ident)
+    if p is None:
+        I.observe('pos:%s:amount' % ident, None)
+        return
+    I.observe('pos:%s:amount' % ident, p.get('lp_asset').get('amount'))
+    I.observe('pos:%s:open' % ident, p.get('open'))
+    e = p.get('expiring_at')
+    I.observe('pos:%s:expiring_at' % ident, None if e.var == 'None' else e.f[0])
+    I.observe('pos:%s:receiver' % ident, p.get('receiver'))
+
+
+def observe_farm(I, ident):
+    f = get_farm(I, ident)
+    if f is None:
+        I.observe('farm:%s:funded' % ident, None)
+        return
+    I.observe('farm:%s:funded' % ident, f.get('farm_asset').get('amount'))
+    I.observe('farm:%s:claimed' % ident, f.get('claimed_amount'))
+    I.observe('farm:%s:end' % ident, f.get('preliminary_end_epoch'))
+
+
+def observe_balances(I, b, keys):
+    for (a, d) in keys:
+        I.observe('bal:%s:%s' % (a, d), b.get(a, d))
+
+
+def fm_replay(build):
+    """build(model) -> dict(now_s, positions, farms, weights, last_claimed, mints, counters, config, txs=[(sender, msg_json, funds)])"""
+    from .pm import generic_replay, coin_j
+
+    def b2(m):
+        d = build(m)
+        steps = fm_state_steps(None, positions=d.get('positions', ()), farms=d.get('farms', ()), weights=d.get('weights', ()),
+                               last_claimed=d.get('last_claimed', ()), now_s=d.get('now_s'), mints=d.get('mints', ()))
+        for which, val in d.get('counters', {}).items():
+            steps.append({'op': 'set_counter', 'which': which, 'value': str(val)})
+        for (sender, msg, funds) in d['txs']:
+            steps.append({'op': 'execute', 'contract': 'farm_manager', 'sender': sender, 'funds': [coin_j(dd, a) for dd, a in funds], 'msg': msg})
+        farmcfg = {'max_concurrent_farms': 2}
+        farmcfg.update(d.get('config', {}))
+        sc = {'setup': {'time_nanos': '0', 'epoch': {'genesis': '0', 'duration': str(DAY)}, 'farm': farmcfg}, 'steps': steps}
+        return sc, len(steps) - 1
+    return generic_replay(b2)
